@@ -30,6 +30,7 @@ def generate(rng, ctx):
     thorough = ctx.tier == "thorough"
     depth = rng.choice([1, 2, 3] if thorough else [1, 2, 2])
     schema = gen.gen_schema(rng, depth=depth, width=rng.choice([3, 4, 6] if thorough else [3, 4]))
+    history.add_twins(rng, schema)
     n = rng.randrange(5, 61 if thorough else 31)
     env = gen.GEN_ENV
     ops = history.gen_ops(rng, schema, env, n, bad=rng.choice([0.15, 0.3, 0.45]))
